@@ -159,7 +159,7 @@ def evaluate(case, obs, sim, monitors):
         cp = O.conflicted_paths(L, R)
         if cp:
             probs.append(("conflicted_artefact", cp[:3]))
-        if case["family"].startswith(("ONE", "REUSE")):
+        if case["family"].startswith(("ONE", "REUSE")) and case["family"] != "REUSE2":
             side = int(case["family"][-1])
             ow = [c for c in O.engine_writes(sim, side=side, since=since) if c.get("ok") and c.get("ev")]
             if ow:
